@@ -184,6 +184,47 @@ def classify(d, fails, open_ids):
     return seen or None
 
 
+def shrink(d, what, open_ids, budget=300):
+    """greedy delta-debugging on list elements (flows, nodes, actions, cases, campaigns, events,
+    triggers): keep a removal when the oracle still fails with the same `what` and the failure
+    is still not a known finding.  Every candidate stays inside the schema (a removal that
+    makes the document invalid changes `what` and is rejected)."""
+    def still_fails(x):
+        fails, _ = oracle(copy.deepcopy(x))
+        return bool(fails) and fails[0]["what"] == what and not classify(x, fails, open_ids)
+
+    def lists(x):
+        yield x, "triggers"
+        yield x, "campaigns"
+        for c in x.get("campaigns", []):
+            yield c, "events"
+        yield x, "flows"
+        for f in x.get("flows", []):
+            yield f, "nodes"
+            for n in f.get("nodes", []):
+                if "router" not in n:
+                    yield n, "actions"
+                elif n["router"].get("type") == "switch":
+                    yield n["router"], "cases"
+
+    cur = copy.deepcopy(d)
+    progress = True
+    while progress and budget > 0:
+        progress = False
+        for holder, key in list(lists(cur)):
+            i = 0
+            while i < len(holder.get(key, [])) and budget > 0:
+                saved = holder[key]
+                holder[key] = saved[:i] + saved[i + 1:]
+                budget -= 1
+                if still_fails(cur):
+                    progress = True
+                else:
+                    holder[key] = saved
+                    i += 1
+    return cur
+
+
 # ----------------------------------------------------------------------------- corpus (fixtures)
 
 
@@ -560,6 +601,16 @@ def run(ck: core.Check):
     if set(amap) != set(G.PASS_THROUGH) | set(G.SPECIAL):
         ck.tie_break("action_map of the source and the generator's schema differ", {
             "only_source": sorted(set(amap) - set(G.PASS_THROUGH) - set(G.SPECIAL)), "only_generator": sorted((set(G.PASS_THROUGH) | set(G.SPECIAL)) - set(amap))})
+
+    # minimise the replay of the smallest failing input
+    if ck.violations:
+        ck.violations.sort(key=lambda x: len(json.dumps(x["replay"], default=str)))
+        v = ck.violations[0]
+        if isinstance(v["replay"].get("input"), dict):
+            small = shrink(v["replay"]["input"], v["what"], open_ids)
+            fails, _ = oracle(copy.deepcopy(small))
+            if fails and fails[0]["what"] == v["what"]:
+                v["replay"] = {"label": v["replay"].get("label"), "shrunk": True, "failures": fails[:4], "input": small}
 
     if (ck.tie_breaks or not ck.lean.ok) and not ck.violations and quick:
         # obligation broken: failing-input search = thorough-size generation through C only
